@@ -52,7 +52,10 @@ class _TransactionBase:
                 table = self._mdib.context_states if transaction_item.new.is_context_state else self._mdib.states
             if transaction_item.new is None:
                 continue  # a deleted (context) state: it is only removed, there is nothing to add or to report
-            table.add_object_no_lock(transaction_item.new)
+            # the application still holds transaction_item.new (it got it from a transaction getter):
+            # the mdib keeps its own copy, otherwise a later write to that object would change the mdib
+            # without a transaction.
+            table.add_object_no_lock(transaction_item.new.mk_copy(copy_node=False))
             updates_list.append(transaction_item.new.mk_copy(copy_node=False))
         return updates_list
 
@@ -361,7 +364,9 @@ class DescriptorTransaction(_TransactionBase):
                     self._logger.debug(  # noqa: PLE1205
                         'transaction_manager: update descriptor Handle={}, DescriptorVersion={}',
                         new_descriptor.Handle, new_descriptor.DescriptorVersion)
-                    orig_descriptor.update_from_other_container(new_descriptor)
+                    # update_from_other_container copies the values only one level deep: take them from a private
+                    # copy, so that the mdib shares nothing with the object the application / the result holds.
+                    orig_descriptor.update_from_other_container(new_descriptor.mk_copy())
                     self._update_corresponding_state(orig_descriptor)
                     self._mdib.descriptions.update_object_no_lock(orig_descriptor)
             for updates_dict, dest_list in ((self.alert_state_updates, proc.alert_updates),
